@@ -150,6 +150,8 @@ type arbGen struct {
 	nf   int
 	// feature knobs (systematic mode switches exactly one thing on)
 	optProb int // 1/optProb chance of an option on a field (0 = never)
+	// usedSpecial: "message/name" pairs of the special field names already used
+	usedSpecial map[string]bool
 }
 
 func (g *arbGen) fieldName(base string) string {
@@ -209,7 +211,19 @@ func (g *arbGen) field(ind, self string, inOneof bool, num int) {
 			t = "map<" + key + ", " + t + ">"
 		}
 	}
-	fmt.Fprintf(&g.sb, "%s%s%s %s = %d%s;\n", ind, label, t, g.fieldName("f"), num, g.options())
+	name := g.fieldName("f")
+	if g.rng.Intn(12) == 0 {
+		// names that mean something to the schema reader (entity parts looked up by field name)
+		special := []string{"keys", "data", "status", "metadata", "event", "state"}[g.rng.Intn(6)]
+		if g.usedSpecial == nil {
+			g.usedSpecial = map[string]bool{}
+		}
+		if k := self + "/" + special; !g.usedSpecial[k] {
+			g.usedSpecial[k] = true
+			name = special
+		}
+	}
+	fmt.Fprintf(&g.sb, "%s%s%s %s = %d%s;\n", ind, label, t, name, num, g.options())
 }
 
 func (g *arbGen) message(ind, name, full string, depth int) {
@@ -907,6 +921,7 @@ message Other { string name = 1; }
 		"enum-alias":          "enum E { option allow_alias = true; E_UNSPECIFIED = 0; E_A = 1; E_B = 1; }\nmessage A { E e = 1; repeated E es = 2; }",
 		"enum-negative":       "enum E { E_UNSPECIFIED = 0; E_NEG = -1; }\nmessage A { E e = 1; }",
 		"empty-message":       "message A { }",
+		"fields-named-like-entity-parts": "message A { repeated string keys = 1; int64 data = 2; bool status = 3; string metadata = 4; bytes event = 5; }\nmessage BState { int64 keys = 1; string data = 2; }\nmessage CEvent { string keys = 1; string event = 2; }\nmessage D { map<string, string> keys = 1; }\nenum E { E_UNSPECIFIED = 0; }\nmessage F { E keys = 1; repeated E status = 2; }",
 		"map-of-wrapper":      "message W { oneof type { A a = 1; B b = 2; } }\nmessage A { string s = 1; }\nmessage B { int64 n = 1; }\nmessage H { map<string, W> ws = 1; repeated W list = 2; W one = 3; }",
 		"map-of-typed-wrapper": "message W { option (j5.ext.v1.message).oneof = {}; oneof type { string s = 1; A a = 2; } }\nmessage A { string s = 1; }\nmessage H { map<string, W> ws = 1; repeated W list = 2; optional string x = 3; }",
 		"exposed-oneof-name-clash": "message A { oneof contact_info { option (j5.ext.v1.oneof).expose = true; string email = 1; string phone = 2; } string contactInfo = 3; }",
